@@ -209,7 +209,7 @@ Inductive command :=
 Inductive item :=
 | IString (name : str) (parts : list str)
 | IPreamble (parts : list str)
-| IEntry (typ key : str) (fields : list (str * list str)).
+| IEntry (typ : str) (key : option str) (fields : list (str * list str)).   (* key None: keyless_entries *)
 
 Definition heap := list dcell.
 Definition h_get (h : heap) (i : nat) : dcell := nth i h (mkCell false []).
@@ -256,7 +256,7 @@ Fixpoint ll_fields (via : bool) (cell : dcell) (fs : list (str * list vpart)) (e
 
 (* parse_command (lines 197-227) on one command: the cell after it (an @string writes through
    self.macros, line 237), the item yielded if any *)
-Definition ll_command (via : bool) (cell : dcell) (c : command) (e : errs) : (dcell * errs) * res (option item) :=
+Definition ll_command (via keyless : bool) (cell : dcell) (c : command) (e : errs) : (dcell * errs) * res (option item) :=
   match c with
   | CString name v =>
     let '(e1, pv) := ll_value via cell v e in
@@ -267,7 +267,8 @@ Definition ll_command (via : bool) (cell : dcell) (c : command) (e : errs) : (dc
     lift_res (cell, e1) pv (fun parts => ((cell, e1), Ok (Some (IPreamble parts))))
   | CEntry typ key fs =>
     let '(e1, pf) := ll_fields via cell fs e in
-    lift_res (cell, e1) pf (fun fields => ((cell, e1), Ok (Some (IEntry typ key fields))))
+    (* parse_entry_body (lines 239-245): with keyless_entries no key is read, current_entry_key stays None *)
+    lift_res (cell, e1) pf (fun fields => ((cell, e1), Ok (Some (IEntry typ (if keyless then None else Some key) fields))))
   | CComment => ((cell, e), Ok None)
   | CBad =>
     let '(e1, u) := ll_report via (E_SYNTAX, []) e in
@@ -276,16 +277,38 @@ Definition ll_command (via : bool) (cell : dcell) (c : command) (e : errs) : (dc
 
 (* ------------------------------------------------------------------------------------- *)
 (* the database a reader fills *)
+Definition s_author : str := Eval vm_compute in s2l "author".
+Definition s_editor : str := Eval vm_compute in s2l "editor".
 Record entry := mkEntry { en_type : str; en_fields : list (str * str); en_persons : list (str * list person) }.
-Record reader := mkReader { r_cell : nat; r_entries : list (str * entry); r_preamble : list str }.
+Record reader := mkReader {
+  r_cell : nat; r_entries : list (str * entry); r_preamble : list str;
+  r_keyless : bool;                 (* Parser(keyless_entries=...) *)
+  r_pf : list str;                  (* Parser(person_fields=...), a CaseInsensitiveSet: lower-cased names *)
+  r_counter : nat }.                (* self.unnamed_entry_counter *)
+
+(* the constructor options of a reader *)
+Record ropts := mkOpts { o_macros : option (list (str * str)); o_keyless : bool; o_pf : option (list str) }.
+Definition default_pf : list str := [s_author; s_editor].      (* Person.valid_roles *)
+Definition opts_pf (o : ropts) : list str := map lower (match o_pf o with None => default_pf | Some l => l end).
+
+(* 'unnamed-%i' % n *)
+Fixpoint digits_go (fuel : nat) (n : N) (acc : str) : str :=
+  match fuel with
+  | O => acc
+  | S f => let acc' := (48 + N.modulo n 10)%N :: acc in
+           if N.eqb (N.div n 10) 0 then acc' else digits_go f (N.div n 10) acc'
+  end.
+Definition nat_dec (n : nat) : str := digits_go (S n) (N.of_nat n) [].
+Definition s_unnamed : str := Eval vm_compute in s2l "unnamed-".
+Definition with_data (rd : reader) (es : list (str * entry)) (pre : list str) : reader :=
+  mkReader (r_cell rd) es pre (r_keyless rd) (r_pf rd) (r_counter rd).
+Definition with_counter (rd : reader) (n : nat) : reader :=
+  mkReader (r_cell rd) (r_entries rd) (r_preamble rd) (r_keyless rd) (r_pf rd) n.
 
 Definition normalize_whitespace (s : str) : str := join [c_space] (split_ws s).   (* textutils.py:113-133 *)
 
-Definition s_author : str := Eval vm_compute in s2l "author".
-Definition s_editor : str := Eval vm_compute in s2l "editor".
-(* Person.valid_roles = ['author', 'editor'] as a CaseInsensitiveSet *)
-Definition is_person_field (n : str) : bool :=
-  let l := lower n in str_eqb l s_author || str_eqb l s_editor.
+(* field_name in self.person_fields (a CaseInsensitiveSet) *)
+Definition is_person_field (pf : list str) (n : str) : bool := existsb (str_eqb (lower n)) pf.
 
 Fixpoint has_key_ci {X} (k : str) (l : list (str * X)) : bool :=
   match l with [] => false | (k', _) :: r => str_eqb (lower k) (lower k') || has_key_ci k r end.
@@ -309,22 +332,22 @@ Fixpoint add_persons (role : str) (names : list str) (en : entry) (e : errs) : e
   end.
 
 (* Parser.process_entry, the loop over fields (lines 356-368) *)
-Fixpoint process_fields (key : str) (fs : list (str * list str)) (seen : list str) (en : entry) (e : errs)
+Fixpoint process_fields (pf : list str) (key : str) (fs : list (str * list str)) (seen : list str) (en : entry) (e : errs)
   : errs * res entry :=
   match fs with
   | [] => (e, Ok en)
   | (n, parts) :: r =>
     if existsb (str_eqb (lower n)) seen then
       let '(e1, u) := report_error (E_DUPFIELD, n) e in
-      lift_res e1 u (fun _ => process_fields key r seen en e1)
+      lift_res e1 u (fun _ => process_fields pf key r seen en e1)
     else
       let value := normalize_whitespace (concat parts) in
-      if is_person_field n then
+      if is_person_field pf n then
         lift_res e (split_name_list value) (fun names =>
           let '(e1, ren) := add_persons n names en e in
-          lift_res e1 ren (fun en1 => process_fields key r (lower n :: seen) en1 e1))
+          lift_res e1 ren (fun en1 => process_fields pf key r (lower n :: seen) en1 e1))
       else
-        process_fields key r (lower n :: seen)
+        process_fields pf key r (lower n :: seen)
           (mkEntry (en_type en) (en_fields en ++ [(n, value)]) (en_persons en)) e
   end.
 
@@ -333,40 +356,51 @@ Definition process_item (rd : reader) (it : item) (e : errs) : (reader * errs) *
   match it with
   | IString _ _ => ((rd, e), Ok tt)
   | IPreamble parts =>
-    ((mkReader (r_cell rd) (r_entries rd) (r_preamble rd ++ [normalize_whitespace (concat parts)]), e), Ok tt)
-  | IEntry typ key fields =>
-    let '(e1, ren) := process_fields key fields [] (mkEntry (lower typ) [] []) e in
-    lift_res (rd, e1) ren (fun en =>
+    ((with_data rd (r_entries rd) (r_preamble rd ++ [normalize_whitespace (concat parts)]), e), Ok tt)
+  | IEntry typ okey fields =>
+    (* process_entry lines 358-360: a keyless entry is named from the reader's counter, which is
+       advanced at once (also when the entry then fails) *)
+    let '(key, rd0) := match okey with
+                       | Some k => (k, rd)
+                       | None => (s_unnamed ++ nat_dec (r_counter rd), with_counter rd (S (r_counter rd)))
+                       end in
+    let '(e1, ren) := process_fields (r_pf rd0) key fields [] (mkEntry (lower typ) [] []) e in
+    lift_res (rd0, e1) ren (fun en =>
       (* BibliographyData.add_entry *)
-      if has_key_ci key (r_entries rd) then
+      if has_key_ci key (r_entries rd0) then
         let '(e2, u) := report_error (E_REPEATED, key) e1 in
-        lift_res (rd, e2) u (fun _ => ((rd, e2), Ok tt))
-      else ((mkReader (r_cell rd) (r_entries rd ++ [(key, en)]) (r_preamble rd), e1), Ok tt))
+        lift_res (rd0, e2) u (fun _ => ((rd0, e2), Ok tt))
+      else ((with_data rd0 (r_entries rd0 ++ [(key, en)]) (r_preamble rd0), e1), Ok tt))
   end.
 
 (* Parser.parse_string(text): a LowLevelParser sharing the reader's macro object (so an @string is
    visible to the following commands, and to later files of the same reader), each yielded
    command processed before the next one is parsed.  [cell] is that macro object. *)
-Fixpoint feed (cell : dcell) (rd : reader) (file : list command) (e : errs) : (dcell * reader * errs) * res unit :=
+Fixpoint feed_go (cell : dcell) (rd : reader) (file : list command) (e : errs) : (dcell * reader * errs) * res unit :=
   match file with
   | [] => ((cell, rd, e), Ok tt)
   | c :: r =>
-    let '((cell1, e1), ri) := ll_command true cell c e in
+    let '((cell1, e1), ri) := ll_command true (r_keyless rd) cell c e in
     lift_res (cell1, rd, e1) ri (fun oi =>
       match oi with
-      | None => feed cell1 rd r e1
+      | None => feed_go cell1 rd r e1
       | Some it =>
         let '((rd1, e2), u) := process_item rd it e1 in
-        lift_res (cell1, rd1, e2) u (fun _ => feed cell1 rd1 r e2)
+        lift_res (cell1, rd1, e2) u (fun _ => feed_go cell1 rd1 r e2)
       end)
   end.
+
+(* Parser.parse_string line 389: self.unnamed_entry_counter = 1 at the start of EVERY parse (so the
+   second keyless file of one reader starts at unnamed-1 again and collides with the first) *)
+Definition feed (cell : dcell) (rd : reader) (file : list command) (e : errs) : (dcell * reader * errs) * res unit :=
+  feed_go cell (with_counter rd 1) file e.
 
 (* list(LowLevelParser(text, macros=<object>)): the items, or the first error raised *)
 Fixpoint lowlevel (via : bool) (cell : dcell) (file : list command) (e : errs) : (dcell * errs) * res (list item) :=
   match file with
   | [] => ((cell, e), Ok [])
   | c :: r =>
-    let '((cell1, e1), ri) := ll_command via cell c e in
+    let '((cell1, e1), ri) := ll_command via false cell c e in
     lift_res (cell1, e1) ri (fun oi =>
       let '(ce2, rr) := lowlevel via cell1 r e1 in
       lift_res ce2 rr (fun its => (ce2, Ok (match oi with Some it => it :: its | None => its end))))
@@ -384,9 +418,9 @@ Record G := mkG {
 Definition G0 : G := mkG [mkCell false month_names] [] memo0 memo0 errs0.
 
 Inductive op :=
-| ONewReader (macros : option (list (str * str)))            (* Parser(macros=...) kept alive; None = the default *)
+| ONewReader (o : ropts)                                      (* Parser(macros=, keyless_entries=, person_fields=) kept alive *)
 | OFeed (r : nat) (file : list command)                       (* readers[r].parse_string(text): accumulates *)
-| OParse (macros : option (list (str * str))) (files : list (list command))
+| OParse (o : ropts) (files : list (list command))
                                                               (* a fresh Parser(...).parse_files(files) *)
 | OLowLevel (src : option nat) (file : list command)          (* list(LowLevelParser(text[, macros=readers[r].macros])) *)
 | OFormatName (names : str) (n : Z) (format : str)            (* the memoised _format_name, as format.name$ calls it *)
@@ -415,8 +449,9 @@ Record outcome := mkOut { o_val : res oval; o_stderr : list err; o_captured : op
    self.macros = CaseInsensitiveDict(macros) -- a copy, in a new heap cell *)
 Definition new_macros (g_h : heap) (macros : option (list (str * str))) : dcell :=
   ci_copy (match macros with None => c_items (h_get g_h 0) | Some l => l end).
-Definition new_reader (g_h : heap) (macros : option (list (str * str))) : heap * reader :=
-  (g_h ++ [new_macros g_h macros], mkReader (length g_h) [] []).
+Definition fresh_reader (cellid : nat) (o : ropts) : reader := mkReader cellid [] [] (o_keyless o) (opts_pf o) 1.
+Definition new_reader (g_h : heap) (o : ropts) : heap * reader :=
+  (g_h ++ [new_macros g_h (o_macros o)], fresh_reader (length g_h) o).
 
 Definition snap (cell : dcell) (rd : reader) : snapshot := (r_entries rd, r_preamble rd, c_items cell).
 
@@ -454,8 +489,8 @@ Fixpoint bst_calls (cap : nat) (fmt : fmt_fun) (ks : list nkey) (st : memo nkey 
 (* one API call in the current reporting mode; returns the value (or exception) *)
 Definition exec (cap : nat) (fmt : fmt_fun) (g : G) (o : op) : G * res oval :=
   match o with
-  | ONewReader macros =>
-    let '(h1, rd) := new_reader (g_heap g) macros in
+  | ONewReader o =>
+    let '(h1, rd) := new_reader (g_heap g) o in
     (mkG h1 (g_readers g ++ [rd]) (g_ms g) (g_mf g) (g_err g), Ok (VReader (length (g_readers g))))
   | OFeed r file =>
     match nth_error (g_readers g) r with
@@ -465,9 +500,9 @@ Definition exec (cap : nat) (fmt : fmt_fun) (g : G) (o : op) : G * res oval :=
       (mkG (h_set (g_heap g) (r_cell rd) c1) (set_nth (g_readers g) r rd1) (g_ms g) (g_mf g) e1,
        map_res_val (fun _ => VData (snap c1 rd1)) u)
     end
-  | OParse macros files =>
+  | OParse o files =>
     (* the reader and its macro table are local to the call: nothing of them stays in G *)
-    let '((c2, rd2, e2), u) := feed_files (new_macros (g_heap g) macros) (mkReader 0 [] []) files (g_err g) in
+    let '((c2, rd2, e2), u) := feed_files (new_macros (g_heap g) (o_macros o)) (fresh_reader 0 o) files (g_err g) in
     (mkG (g_heap g) (g_readers g) (g_ms g) (g_mf g) e2, map_res_val (fun _ => VData (snap c2 rd2)) u)
   | OLowLevel src file =>
     match src with
